@@ -127,4 +127,12 @@ theorem corner_scatter_append (P : Nat → Bool) : ∀ (l : List Nat) (k : Nat) 
       · subst hw; simp [hP, upd]
       · by_cases hPw : P w <;> simp [hP, hPw, upd, hw, Ne.symm hw]
 
+theorem vsum_components (l : List V3) :
+    (vsum l).x = rsum (l.map (·.x)) ∧ (vsum l).y = rsum (l.map (·.y)) ∧ (vsum l).z = rsum (l.map (·.z)) := by
+  induction l with
+  | nil => simp [vsum, rsum, V3.zero]
+  | cons p ps ih =>
+    simp only [vsum, rsum, List.foldr_cons, List.map_cons, add] at ih ⊢
+    exact ⟨by rw [ih.1], by rw [ih.2.1], by rw [ih.2.2]⟩
+
 end Mouette.GeomSrc
